@@ -515,7 +515,7 @@ def _evolve2d_dynamic(cellular_automaton, timesteps, apply_rule, neighbourhood, 
         array.append(next_layer)
         t += 1
 
-    return np.concatenate((cellular_automaton, array[1:]), axis=0)
+    return np.concatenate((cellular_automaton[:-1], array), axis=0)
 
 
 def _get_neighbourhood_indices(rows, cols, r):
